@@ -497,6 +497,8 @@ def h_run(ctx):
     # constraints on delays (C04: every cycle carries enough delay)
     if p.get("delay_sum_ge_steps"):
         assume_delays_cover_steps(ctx, w)
+    if p["topo"].get("delays_le_steps"):
+        assume_delays_le_steps(ctx, w)
 
     composition = w["composition"]
     outcome = "ok"
@@ -619,6 +621,16 @@ def assume_delays_cover_steps(ctx, w):
     ctx.assume(tot >= need)
 
 
+def assume_delays_le_steps(ctx, w):
+    """every fixed delay is at most every step (requests through differently delayed links of one consumer then
+    reach a shared source in non-decreasing order)"""
+    for d in w["delays"]:
+        for c in w["comps"].values():
+            if isinstance(c, HComp):
+                for s_ in c.steps:
+                    ctx.assume(d <= s_)
+
+
 class _StopStep(Exception):
     pass
 
@@ -637,6 +649,8 @@ def h_step(ctx):
     composition = w["composition"]
     if p.get("delay_sum_ge_steps"):
         assume_delays_cover_steps(ctx, w)
+    if p["topo"].get("delays_le_steps"):
+        assume_delays_le_steps(ctx, w)
     composition.connect(w["base"])
     mon = RunMonitor(ctx, w, props, 10**9)
     mon.end = None
